@@ -295,6 +295,9 @@ structure Sess (α G : Type) where
   ds : Ds α G
   draws : Nat
   iters : List (Option (EpochIter α))
+  /-- iterators the caller gave up (`it.close()`, `break` out of the loop, the generator object
+      dropped): nothing of the dataset is undone, the iterator yields nothing any more -/
+  closed : List Nat := []
 
 inductive SessOp where
   /-- `it = iter(ds)` -/
@@ -303,6 +306,8 @@ inductive SessOp where
   | next (j : Nat)
   /-- `ds.fastforward_epochs(n)` -/
   | ff (n : Nat)
+  /-- iterator `j` is abandoned (`it_j.close()` / garbage collected): `GeneratorExit` at its `yield` -/
+  | close (j : Nat)
   deriving Repr
 
 inductive SessOut (α : Type) where
@@ -313,15 +318,15 @@ inductive SessOut (α : Type) where
   /-- no such iterator -/
   | noIter
 
-def Sess.init {α G : Type} (ds : Ds α G) : Sess α G := ⟨ds, 0, []⟩
+def Sess.init {α G : Type} (ds : Ds α G) : Sess α G := ⟨ds, 0, [], []⟩
 
 /-- the generator body starts: `shuffled = self._next_epoch()`, then the first `yield` -/
 def Sess.startIter {α G : Type} (R : RNG G) (s : Sess α G) (j : Nat) : Sess α G × SessOut α :=
   match (s.ds.iter R).1 with
-  | [] => ({ ds := (s.ds.iter R).2, draws := s.draws + 1,
-             iters := s.iters.set j (some ⟨s.draws, [], []⟩) }, .stop)
-  | b :: r => ({ ds := (s.ds.iter R).2, draws := s.draws + 1,
-                 iters := s.iters.set j (some ⟨s.draws, [b], r⟩) }, .batch b)
+  | [] => ({ s with ds := (s.ds.iter R).2, draws := s.draws + 1,
+                    iters := s.iters.set j (some ⟨s.draws, [], []⟩) }, .stop)
+  | b :: r => ({ s with ds := (s.ds.iter R).2, draws := s.draws + 1,
+                        iters := s.iters.set j (some ⟨s.draws, [b], r⟩) }, .batch b)
 
 /-- the next `yield` of a started generator (or `StopIteration`) -/
 def Sess.advance {α G : Type} (s : Sess α G) (j : Nat) (it : EpochIter α) : Sess α G × SessOut α :=
@@ -332,11 +337,14 @@ def Sess.advance {α G : Type} (s : Sess α G) (j : Nat) (it : EpochIter α) : S
 def Sess.step {α G : Type} (R : RNG G) (s : Sess α G) : SessOp → Sess α G × SessOut α
   | .mk => ({ s with iters := s.iters ++ [none] }, .unit)
   | .ff n => ({ s with ds := Ds.fastforward R n s.ds, draws := s.draws + n }, .unit)
+  | .close j => ({ s with closed := j :: s.closed }, .unit)
   | .next j =>
-    match s.iters[j]? with
-    | none => (s, .noIter)
-    | some none => s.startIter R j
-    | some (some it) => s.advance j it
+    if s.closed.contains j then (s, .stop)
+    else
+      match s.iters[j]? with
+      | none => (s, .noIter)
+      | some none => s.startIter R j
+      | some (some it) => s.advance j it
 
 /-- run a list of operations; the trace pairs every operation with what it returned -/
 def Sess.run {α G : Type} (R : RNG G) : Sess α G → List SessOp → Sess α G × List (SessOp × SessOut α)
